@@ -734,7 +734,9 @@ impl<'a> Gen<'a> {
     /// with a value, or a general scalar.
     fn order_key_expr(&mut self, scope: &[Rel]) -> X {
         let k = *self.rng.pick(&[K::I, K::I, K::T]);
-        match self.rng.below(5) {
+        match self.rng.below(6) {
+            // a truth value as a key (loosest-binding operators on top)
+            5 => self.boolean(scope, 1),
             0 => {
                 let a = self.col_any(scope, k);
                 let c = self.col_any(scope, k);
@@ -774,7 +776,17 @@ impl<'a> Gen<'a> {
     fn order_item(&mut self, s: &Sel, allow_nulls: bool, allow_field: bool) -> Ord_ {
         if allow_field && s.distinct.is_none() && !s.order_exprs.is_empty() && self.rng.chance(1, 3) {
             let e = self.rng.pick(&s.order_exprs).clone();
-            let dir = if self.rng.coin() { Dir::Asc } else { Dir::Desc };
+            let dir = if self.rng.chance(1, 5) {
+                Dir::Field(vec![Value::from(1i32), Value::from(2i32)][..1 + self.rng.below(2)].to_vec())
+            } else if self.rng.coin() {
+                Dir::Asc
+            } else {
+                Dir::Desc
+            };
+            if matches!(dir, Dir::Field(_)) {
+                // (FIELD order with NULLS ordering on a non-column key: listed C09 finding, not generated here)
+                return Ord_ { expr: e, dir, nulls_first: None };
+            }
             let nulls_first = if allow_nulls && self.rng.coin() { Some(self.rng.coin()) } else { None };
             return Ord_ { expr: e, dir, nulls_first };
         }
